@@ -84,6 +84,14 @@ class Ctx:
         self.case["filesets"][name] = fs
         self.texts = world.write_inputs(self.case, self.workdir)
 
+    def save_decoys(self, out):
+        for n in os.listdir(self.workdir):
+            if n.startswith("decoy_"):
+                os.unlink(os.path.join(self.workdir, n))
+        for n, text in out.get("late_files", {}).items():
+            with open(os.path.join(self.workdir, "decoy_" + n), "w", newline="") as f:
+                f.write(text)
+
     def count_stream(self, profile):
         self.stream_profiles[profile] = self.stream_profiles.get(profile, 0) + 1
         self.n_exec += 1
